@@ -119,6 +119,7 @@ func c17Run(rc *RunCtx, params any) {
 	default:
 		rules.Partitions = [][2]int64{{p.CutNs, int64(2 * horizon)}}
 	}
+	rc.Note("proto", protoTag(v.C, v.S))
 	n := NewSimNet(s, rules)
 	pair, err := NewPair(s, n, v.C, v.S, nil)
 	if err != nil {
